@@ -71,6 +71,8 @@ class Params:
         self.probe_rate = 0.0       # debugger probes: PRINT "@@"; <exprs>
         self.dead_code = 0.0        # unreachable statements after END
         self.nested_exit = 0.3      # EXIT FOR taken inside a nested FOR
+        self.record_params = 0.2    # procedure parameters of a record type
+        self.mixed_case_types = False   # CASE values of other numeric types
         for k, v in kw.items():
             if k == 'features':
                 self.features.update(v)
@@ -747,6 +749,19 @@ class Gen:
                 args.append(rec_arg if rec_arg is not None else
                             self.int_const_expr(self.i(0, 3)))
                 continue
+            if A.is_rec(prm.t):
+                recs = [v for v in self.visible_vars().values()
+                        if v.t == prm.t and v.kind != 'param_array']
+                if not recs:
+                    return None
+                v = self.pick(recs)
+                idx = []
+                if v.dims is not None:
+                    idx = [self.int_const_expr(self.i(lo, hi))
+                           for lo, hi in v.dims]
+                args.append(A.LV(v.name, idx, [], prm.t))
+                self.note('record_arg')
+                continue
             r = self.i(0, 9)
             if r <= 3:
                 lv = self.lvalue(prm.t, for_write=True)    # by reference
@@ -1177,10 +1192,24 @@ class Gen:
             mk = lambda: self.num_expr(0, t=st_) \
                 if self.chance(0.3) else self.lit(st_)
         cases = []
+        mixed = self.p.mixed_case_types and sel.t != '$'
         for _ in range(self.i(0, 3)):
             clauses = []
             for _ in range(self.i(1, 2)):
                 k = self.i(0, 2)
+                if mixed and self.chance(0.5):
+                    # clause values of any numeric type (outside R's subset)
+                    lo = self.lit(self.pick('%&!#'))
+                    hi = self.lit(self.pick('%&!#'))
+                    self.note('case_mixed_types')
+                    if k == 0:
+                        clauses.append(('v', lo))
+                    elif k == 1:
+                        clauses.append(('range', lo, hi))
+                    else:
+                        clauses.append(('is', self.pick(
+                            ['=', '<>', '<', '>', '<=', '>=']), lo))
+                    continue
                 if k == 0:
                     clauses.append(('v', self.same_type(mk(), sel.t)))
                 elif k == 1:
@@ -1538,6 +1567,14 @@ class Gen:
                 params.append(A.Param(self.fresh_base() + '%', '%'))
             for _ in range(self.i(0, 3)):
                 t = self.pick('%%&!#$' if self.feat('strings') else '%%&!#')
+                if self.types and self.feat('records') and \
+                        self.chance(self.p.record_params):
+                    # a record passed by reference
+                    tn = self.pick(sorted(self.types))
+                    params.append(A.Param(self.fresh_base(), 'T:' + tn,
+                                          False, True))
+                    self.note('record_param')
+                    continue
                 is_arr = self.feat('arrays') and self.chance(0.15)
                 as_clause = self.chance(0.4)
                 pb = self.fresh_base()
